@@ -609,3 +609,33 @@ func lemmaWild(n, d, p string, j int) {
 //@   loop 0 invariant anyFrom(name, delim, rest, 0, wildcard == '%') == anyFrom(name, delim, rest, j, wildcard == '%')
 //@   loop 0 decreases len(name) - j
 var _ = strings.HasPrefix
+
+// MatchList: the pattern is resolved against the reference (a pattern starting
+// with the delimiter is absolute; a reference lacking a trailing delimiter gets
+// one) and the remaining name is matched with matchList.
+//
+//@ pure
+func matchListSpec(name string, delim rune, reference, pattern string) bool {
+	delimStr := ""
+	if delim != 0 {
+		delimStr = string(delim)
+	}
+	if delimStr != "" && strings.HasPrefix(pattern, delimStr) {
+		reference = ""
+		pattern = strings.TrimPrefix(pattern, delimStr)
+	}
+	if reference != "" {
+		if delimStr != "" && !strings.HasSuffix(reference, delimStr) {
+			reference += delimStr
+		}
+		if !strings.HasPrefix(name, reference) {
+			return false
+		}
+		name = strings.TrimPrefix(name, reference)
+	}
+	return specMatch(name, delimStr, pattern)
+}
+
+//@ func MatchList(name string, delim rune, reference, pattern string) (result bool)
+//@   props C20:post,pre@call
+//@   ensures result == matchListSpec(name, delim, reference, pattern)
